@@ -93,6 +93,15 @@ CHECKS = {
          "components of the legacy objects are tied by correspondence to the same model functions as the current API "
          "(C06/C08/C09) and compared directly between the two implementations on every run.",
     design="DESIGN.md 7 (C20)", technique="Coq proof (orbit argument on the legacy rotation loop; regenerated legacy tables) + correspondence of both object models"),
+ "C03": dict(
+    text="Proof: invariant ViewOK on the object state machine (stored representation = turns-th rotation of the canonical "
+         "form, 0 <= turns < n, every populated cache holds the function of the CURRENT representation): established by "
+         "construction, preserved by every operation and hence along every history of turns assignments and queries; "
+         "`turns = v` for any integer v yields turns = v mod n, unchanged canonical form, the v-th rotation and empty caches; "
+         "the observation of every view after any history equals that of a freshly built object at the same rotation, and "
+         "each view is given explicitly as a function of the current (sequence, structure). Tied to the code by comparing "
+         "every observation of random and exhaustive (query, assign, query) histories on real ComplexS objects.",
+    design="DESIGN.md 7 (C03)", technique="Coq proof (state-machine invariant by induction over operation lists, on the rotation theory) + model/implementation correspondence"),
 }
 
 NOT_YET = {}
